@@ -113,8 +113,16 @@ class _BlockingSocket:
         self.idle = threading.Event()     # set while the handler waits in recv (everything fed so far is processed)
         self.out = []
         self.h = None
+        self.pending = b''
 
     def recv(self, n):
+        # stream semantics: a read returns AT MOST n bytes of what has arrived and the rest stays for the next read; the
+        # handler is idle (everything fed so far is processed) only when it blocks with nothing left to read
+        if n < 0:
+            raise ValueError('negative buffersize in recv')
+        if self.pending:
+            data, self.pending = self.pending[:n], self.pending[n:]
+            return data
         self.idle.set()
         item = self.q.get()
         self.idle.clear()
@@ -124,7 +132,8 @@ class _BlockingSocket:
         if item == 'STOP':
             self.h.running = False
             return b''
-        return item
+        data, self.pending = item[:n], item[n:]
+        return data
 
     def send(self, data):
         self.out.append(list(data))
